@@ -81,9 +81,10 @@ PackageOK(tree, P) ==
 Loadable(tree, e) ==
   /\ e.kind = "file" /\ EndsWith(Name(e), ".py") /\ DotDetermined(e)
   /\ \A i \in 1..(Len(e.parts) - 1) : PackageOK(tree, SubSeq(e.parts, 1, i))
+  \* a bare __init__.pyc makes a directory (the root included) a sourceless package whose byte code decides
+  /\ \A i \in 0..(Len(e.parts) - 1) : ~HasFile(tree, SubSeq(e.parts, 1, i) \o <<"__init__.pyc">>)
   /\ Name(e) # "__init__.py" =>
-       /\ ~HasFile(tree, DirParts(e) \o <<Stem(Name(e)), "__init__.py">>)     \* a package of that name wins
-       /\ ~(Stem(Name(e)) = "__init__")
+       ~HasFile(tree, DirParts(e) \o <<Stem(Name(e)), "__init__.py">>)        \* a package of that name wins
 
 (* ---- expected result of get_component_files(sfx) over several roots ---- *)
 \* roots: sequence of root records; trees: sequence of trees (same length)
@@ -95,7 +96,6 @@ Expected(roots, trees, sfx) ==
 \* Dev_DirectoryReturned: the glob result is not restricted to files, so a public directory whose
 \* name ends with the suffix (any public directory for suffix=None) is returned as an entry.
 \* The directories implied by file entries exist as well.
-RECURSIVE ImpliedDirs(_)
 ImpliedDirs(tree) == UNION {{Dir(SubSeq(e.parts, 1, i)) : i \in 1..(Len(e.parts) - 1)} : e \in tree}
 AllEntries(tree) == tree \cup ImpliedDirs(tree)
 DevDirSelected(e, sfx) == HasSuffix(Name(e), sfx) /\ Public(e)
